@@ -54,6 +54,7 @@ type hist struct {
 	srv   *olareg.Server
 	root  string
 	kind  vh.StoreKind
+	pol   vh.Policy
 	bad   bool
 }
 
@@ -90,7 +91,7 @@ func (h *hist) restart() {
 		return
 	}
 	_ = h.srv.Close()
-	h.srv = vh.New(vh.Conf(vh.Dir, h.root, vh.Neutral))
+	h.srv = vh.New(vh.Conf(vh.Dir, h.root, h.pol))
 	h.w.H = h.srv
 	h.w.T("RESTART")
 	h.r.Count("restarts", 1)
@@ -190,7 +191,7 @@ func (h *hist) step(repo string) {
 		h.restart()
 		// a reload is where the recorded findings K1/K5 surface: look at every repository right now, so that they are
 		// recognised in the state they occur in
-		for _, rp := range []string{"r", "r/n"} {
+		for _, rp := range []string{"r", "r/n", "p/q"} {
 			if rp != repo && !h.bad {
 				h.compare(rp, "after restart")
 			}
@@ -544,9 +545,31 @@ func runHistory(r *vh.Run, focus string, i int) {
 		root = r.TempDir("seq")
 		defer vh.RemoveAll(root)
 	}
-	srv := vh.New(vh.Conf(kind, root, vh.Neutral))
-	h := &hist{r: r, focus: focus, rng: rng, idx: i, srv: srv, root: root, kind: kind}
-	h.w = vh.NewWorld(r, srv, u, kind, "r", "r/n")
+	// the collection in Close removes nothing referenced or young under this policy; in half of the histories it may
+	// remove a repository that is empty (the registry's default): "p" is only ever asked for its tags, "p/q" below it
+	// holds a tagged image
+	pol := vh.Neutral
+	pol.EmptyRepo = (i/2)%2 == 0
+	srv := vh.New(vh.Conf(kind, root, pol))
+	h := &hist{r: r, focus: focus, rng: rng, idx: i, srv: srv, root: root, kind: kind, pol: pol}
+	h.w = vh.NewWorld(r, srv, u, kind, "r", "r/n", "p/q")
+	{
+		// a repository nested below a name that is addressed but never holds anything
+		h.w.Do(vh.Req{Method: "GET", URL: "/v2/p/tags/list"})
+		for _, mm := range u.Mans {
+			if !mm.Index && mm.Subject == "" {
+				for _, rf := range mm.Refs {
+					if b := u.BlobByD[rf]; b != nil {
+						h.w.PushBlob("p/q", b)
+					}
+				}
+				if h.w.Repos["p/q"].ValidRefs(mm) {
+					h.w.PutManifest("p/q", mm, "kept")
+				}
+				break
+			}
+		}
+	}
 	// prelude: most of the blobs, so that manifests are mostly acceptable
 	for _, b := range u.Blobs {
 		if rng.Intn(10) < 7 {
@@ -592,10 +615,11 @@ func runHistory(r *vh.Run, focus string, i int) {
 		h.restart()
 		h.compare("r", "after restart")
 		h.compare("r/n", "after restart")
+		h.compare("p/q", "after restart")
 		if !h.bad && i%4 == 1 {
 			// continue on a memory store layered over the directory just written
 			_ = h.srv.Close()
-			h.srv = vh.New(vh.Conf(vh.MemDir, root, vh.Neutral))
+			h.srv = vh.New(vh.Conf(vh.MemDir, root, pol))
 			h.w.H, h.w.Kind, h.kind = h.srv, vh.MemDir, vh.MemDir
 			h.w.T("REOPEN as memory over directory")
 			h.compare("r", "after reopening as memory over directory")
